@@ -722,6 +722,10 @@ static void fresh(Inst& in) {
 }
 
 int main(int argc, char** argv) {
+    // an earlier emulator instance lives in the same process for the whole run (constructed first, reset, never used again):
+    // nothing the instance under test does may depend on it or reach it (function-local statics, shared tables, captured `this`)
+    static std::unique_ptr<Teakra::Teakra> g_decoy = std::make_unique<Teakra::Teakra>(Teakra::UserConfig{});
+    g_decoy->Reset();
     vh::Args a(argc, argv);
     for (int i = 1; i + 1 < argc; ++i) if (std::string(argv[i]) == "--api") g_capi = std::string(argv[i + 1]) == "c";
     vh::Out o;
